@@ -16,7 +16,7 @@ import z3
 
 from . import contract as C
 from . import extract
-from .engine import FunctionRun, StaleContract
+from .engine import FunctionRun, StaleContract, exc_matches as engine_exc_matches
 from .ops import Unsupported
 
 Z3_TIMEOUT_MS = int(os.environ.get('PYVC_Z3_TIMEOUT_MS', '15000'))
@@ -49,7 +49,7 @@ def _solve_one(job):
     try:
         ctx = z3.Context()
         s = z3.Solver(ctx=ctx)
-        s.set('timeout', Z3_TIMEOUT_MS)
+        s.set('timeout', Z3_TIMEOUT_MS if expect == 'unsat' else 2500)
         s.from_string(smt2)
         r = s.check()
         verdict = str(r)
@@ -57,7 +57,7 @@ def _solve_one(job):
             reason = s.reason_unknown()
     except Exception as e:  # noqa
         verdict, reason = 'unknown', 'z3 error: %s' % e
-    if verdict == 'unknown' and os.path.exists(CVC5_BIN):
+    if verdict == 'unknown' and expect == 'unsat' and os.path.exists(CVC5_BIN):
         try:
             with tempfile.NamedTemporaryFile('w', suffix='.smt2', delete=False) as fh:
                 fh.write('(set-logic ALL)\n' + smt2)
@@ -136,7 +136,7 @@ TRUSTED_BASE_COMMON = [
 ]
 
 
-def verify_targets(targets, repo, tier='quick', property_id=None):
+def verify_targets(targets, repo, tier='quick', property_id=None, native=True):
     from . import models, speclib
     load_contracts()
     t0 = time.time()
@@ -157,6 +157,16 @@ def verify_targets(targets, repo, tier='quick', property_id=None):
     all_obs = [ob for inf in infos for ob in inf['obligations']]
     t_gen = time.time() - t0
     results = discharge(all_obs)
+    from . import monitor
+    witnesses = {}
+    for inf in infos:
+        con = C.lookup(inf['target'], inf['variant'])
+        if con is not None and inf['status'] in ('ok', 'stale', 'out-of-subset') and native:
+            try:
+                witnesses[(inf['target'], inf['variant'])] = monitor.witness_run(con, 1500 if tier == 'quick' else 20000)
+            except Exception:
+                witnesses[(inf['target'], inf['variant'])] = {'error': traceback.format_exc()[-600:], 'examples': 0, 'pre_ok': 0,
+                                                             'returned': 0, 'raised': {}, 'violations': []}
     report = {'obligations': 0, 'discharged': 0, 'undecided': 0, 'refuted': [], 'functions': [], 'backends': {},
               'solver_s': 0.0, 'samples': [], 'covers': {'total': 0, 'reachable': 0, 'vacuous': []}, 'out_of_subset': [], 'stale': [],
               'dropped': [], 'assumptions': list(TRUSTED_BASE_COMMON), 'trusted_base': [], 'undecided_list': [],
@@ -184,7 +194,17 @@ def verify_targets(targets, repo, tier='quick', property_id=None):
             report['solver_s'] += res['secs']
             if ob.expect == 'sat':
                 report['covers']['total'] += 1
-                if res['verdict'] == 'sat':
+                w = witnesses.get((inf['target'], inf['variant']), {})
+                by_witness = False
+                if ob.label == 'requires-satisfiable':
+                    by_witness = w.get('pre_ok', 0) > 0
+                elif ob.label.startswith('raise-path-'):
+                    by_witness = any(engine_exc_matches(r, ob.label[len('raise-path-'):]) for r in w.get('raised', {}))
+                if by_witness:
+                    report['covers']['reachable'] += 1
+                    report['covers'].setdefault('by_concrete_witness', 0)
+                    report['covers']['by_concrete_witness'] += 1
+                elif res['verdict'] == 'sat':
                     report['covers']['reachable'] += 1
                 elif res['verdict'] == 'unsat':
                     report['covers']['vacuous'].append(ob.name)
@@ -209,11 +229,25 @@ def verify_targets(targets, repo, tier='quick', property_id=None):
                 report['undecided'] += 1
                 report['undecided_list'].append({'obligation': ob.name, 'reason': res['reason'][:200]})
         report['functions'].append(f)
+    # native cross-check: the same contract text evaluated on the real code over the concrete examples
+    cc = {'examples': 0, 'precondition_true': 0, 'native_violations': 0}
+    for (tgt, var), w in witnesses.items():
+        cc['examples'] += w.get('examples', 0)
+        cc['precondition_true'] += w.get('pre_ok', 0)
+        cc['native_violations'] += len(w.get('violations', []))
+        already = any(r['target'] == tgt and r.get('replay_confirmed') for r in report['refuted'])
+        for v in w.get('violations', []):
+            if not any(r['target'] == tgt for r in report['refuted']):
+                report['refuted'].append({'obligation': tgt + '/native-contract-check', 'kind': 'native', 'line': 0,
+                                          'detail': 'contract violated natively on a concrete example although no obligation was refuted',
+                                          'solver': {}, 'target': tgt, 'variant': var, 'replay_confirmed': True,
+                                          'input': v['input'], 'violated': v['violated'], 'observed': v['observed']})
+                break
+    report['cross_check'] = cc
     # counterexample search + replay for refuted obligations
-    if report['refuted']:
-        from . import monitor
+    if report['refuted'] and native:
         for rec in report['refuted']:
-            if rec['kind'] == 'vacuity':
+            if rec['kind'] in ('vacuity', 'native'):
                 continue
             try:
                 monitor.find_failing_input(rec, repo)
